@@ -79,7 +79,7 @@ def content_eq(ex, W, c1, c2):
 
 class CreateNodeVariant(Variant):
     """table with m stored entries; the requested content is arbitrary (it may equal a stored one)"""
-    prop_ids = ("C04",)
+    prop_ids = ("C04", "C15")
     qualname = MGR + ".create_node"
 
     def __init__(self, world, m, nargs):
@@ -134,6 +134,9 @@ class CreateNodeVariant(Variant):
             goals.append(("table-unchanged", z3.BoolVal(len(table) == self.m and all(table[j][1] is self.stored[j][1] for j in range(self.m)))))
             if kind == "return":
                 goals.append(("returns-the-stored-node", z3.BoolVal(r is self.stored[case][1])))
+            # a node is stored before it is type-checked: a stored node is checked again, so that an ill-typed
+            # node left behind by a failed construction is rejected again instead of being handed out
+            goals.append(("C15:stored-node-is-type-checked-again", z3.BoolVal(ex.ghost.get("type_checked", 0) == 1)))
             return goals
         # new content
         goals.append(("exactly-one-node-created", z3.BoolVal(len(created) == 1)))
